@@ -48,6 +48,13 @@ func (m *ServerModel) callsIn(root *FuncInfo, key string) []*Site {
 	for _, c := range order {
 		out = append(out, byCall[c])
 	}
+	// calls made for root by private helpers that are judged in their callers' context
+	// (Site.Inl non-empty: render through Site.arg / Site.recvStr / Site.argExpr)
+	for _, s := range m.contextSites(key) {
+		if s.Root == root && len(s.Inl) > 0 {
+			out = append(out, s)
+		}
+	}
 	return out
 }
 
@@ -70,7 +77,6 @@ func c08Bookkeeping(r *Run, m *ServerModel) {
 			}
 			n++
 			root := b.Site.Root
-			res := m.resolver(root)
 			key := b.Key()
 			sites := m.callsIn(root, pr.book)
 			if len(sites) == 0 {
@@ -80,29 +86,29 @@ func c08Bookkeeping(r *Run, m *ServerModel) {
 			for _, s := range sites {
 				bkey := fmt.Sprintf("%s → %s", key, strings.TrimPrefix(pr.book, "p9.fidRef."))
 				// (i) success side
-				if !m.callSucceeded(s.St, root, b.Site.Call) {
+				if !m.succeededAt(s.St, b.Site) {
 					r.fail("r1", bkey+": on success only", s.Call.Pos(), "%s is not dominated by a successful File.%s: the path tree would be changed although the backend refused (or before it was asked)", strings.TrimPrefix(pr.book, "p9.fidRef."), pr.method)
 				} else {
 					r.ok("r1", bkey+": on success only", s.Call.Pos(), "dominated by File.%s == nil", pr.method)
 				}
 				// (ii) same values
 				var diffs []string
-				if got := recvStr(res, s.Call); got != b.Base {
+				if got := s.recvStr(); got != b.Base {
 					diffs = append(diffs, fmt.Sprintf("bookkeeping on %s, backend call on %s", got, b.Base))
 				}
 				if pr.method == "RenameAt" && len(s.Call.Args) == 3 && len(b.ArgStrs) == 3 {
-					if a := res.str(s.Call.Args[0]); a != b.ArgStrs[0] {
+					if a := s.arg(0); a != b.ArgStrs[0] {
 						diffs = append(diffs, fmt.Sprintf("old name %s vs %s", a, b.ArgStrs[0]))
 					}
-					if a := res.str(s.Call.Args[1]) + ".file"; a != b.ArgStrs[1] {
+					if a := s.arg(1) + ".file"; a != b.ArgStrs[1] {
 						diffs = append(diffs, fmt.Sprintf("target %s vs %s", a, b.ArgStrs[1]))
 					}
-					if a := res.str(s.Call.Args[2]); a != b.ArgStrs[2] {
+					if a := s.arg(2); a != b.ArgStrs[2] {
 						diffs = append(diffs, fmt.Sprintf("new name %s vs %s", a, b.ArgStrs[2]))
 					}
 				}
 				if pr.method == "UnlinkAt" && len(s.Call.Args) == 1 {
-					if a := res.str(s.Call.Args[0]); a != b.ArgStrs[0] {
+					if a := s.arg(0); a != b.ArgStrs[0] {
 						diffs = append(diffs, fmt.Sprintf("name %s vs %s", a, b.ArgStrs[0]))
 					}
 				}
@@ -110,7 +116,7 @@ func c08Bookkeeping(r *Run, m *ServerModel) {
 			}
 			// (iii) no successful exit after the backend call without the bookkeeping call
 			for _, ex := range m.DB.Exits[root] {
-				if ex.St.Dead || ex.Ret == nil || !m.callSucceeded(ex.St, root, b.Site.Call) {
+				if ex.St.Dead || ex.Ret == nil || !m.succeededAt(ex.St, b.Site) {
 					continue
 				}
 				if !ex.St.Must[pr.book] {
@@ -122,7 +128,7 @@ func c08Bookkeeping(r *Run, m *ServerModel) {
 	r.floor("r1", "RenameAt/UnlinkAt call sites", n, 4)
 	// Who may call: the bookkeeping functions have no other callers than these handlers (and each other).
 	for _, k := range []string{"p9.fidRef.renameChildTo", "p9.fidRef.markChildDeleted"} {
-		for _, s := range m.DB.Calls[k] {
+		for _, s := range m.contextSites(k) {
 			okCaller := strings.HasSuffix(s.Root.Key, ".handle") || s.Root.Key == "p9.fidRef.renameChildTo"
 			r.check(okCaller, "r1", s.Root.Key+" may call "+strings.TrimPrefix(k, "p9.fidRef."), s.Call.Pos(), "called from a rename/unlink handler", "path-tree bookkeeping is invoked from an unexpected place")
 		}
@@ -439,7 +445,7 @@ func c08Fencing(r *Run, m *ServerModel) {
 	if fi := r.mustFunc("r4", "p9", "txattrcreate.handle"); fi != nil {
 		h := m.handlerInfo(fi)
 		found := false
-		for _, fa := range m.DB.Fields {
+		for _, fa := range m.fields() {
 			if fa.Root != fi || !fa.Write || fa.Key != "p9.fidRef.pendingXattr" {
 				continue
 			}
@@ -470,8 +476,8 @@ func c08Fencing(r *Run, m *ServerModel) {
 			ok, detail := m.checkGuard(h, b.Outer.St, g, m.exitsDeep(dw))
 			// same region: the isDeleted call and the walk are in the same literal
 			same := false
-			for _, s := range m.callsIn(dw, "p9.fidRef.isDeleted") {
-				if s.Fn == b.Outer.Fn && s.Fn != ast.Node(dw.Decl) {
+			for _, s := range m.contextSites("p9.fidRef.isDeleted") {
+				if _, isLit := s.Fn.(*ast.FuncLit); s.Root == dw && s.Fn == b.Outer.Fn && isLit {
 					same = true
 				}
 			}
@@ -583,7 +589,7 @@ func c08Maps(r *Run, m *ServerModel) {
 		// under childMu:W — at the sites (via field accesses with Write or delete calls): use lock state of any site in fi
 		okLock := true
 		seen := false
-		for _, fa := range m.DB.Fields {
+		for _, fa := range m.fields() {
 			if !isPart[fa.Root] || (fa.Key != "p9.pathNode.childRefs" && fa.Key != "p9.pathNode.childRefNames") {
 				continue
 			}
@@ -620,12 +626,11 @@ func c08Maps(r *Run, m *ServerModel) {
 	// clone of a deleted reference is not registered.
 	if dw := r.L.Func("p9", "doWalk"); dw != nil {
 		for _, s := range m.callsIn(dw, "p9.pathNode.addChild") {
-			res := m.resolver(dw)
-			recv := recvStr(res, s.Call)
+			recv := s.recvStr()
 			if !strings.HasSuffix(recv, ".parent.pathNode") {
 				continue
 			}
-			arg := r.L.str(s.Call.Args[0])
+			arg := s.arg(0)
 			ok := s.St.holds(arg+".isDeleted()", false)
 			r.check(ok, "r5", "doWalk: clone of a deleted reference is not registered", s.Call.Pos(), "addChild is guarded by !"+arg+".isDeleted()", "a clone of a deleted reference is registered in its parent's node: it would be treated as a live entry of that name")
 		}
